@@ -38,11 +38,12 @@ func init() {
 		ID:         "C05",
 		Level:      "other",
 		Technique:  "unordered-iteration classification (commutative / collect-then-sort / non-deterministic-only / single-entry) + option-bridge rule (static)",
-		Explain:    "Decides structural necessary conditions of `deterministic marshaling is a function of content`: (1) every iteration over a Go map / reflect map / direct Message.Range / Map.Range in the binary marshal and ordering packages is commutative, sorted before use, single-entry, or control-dependent on determinism being off; (2) the Deterministic option survives every conversion between proto.MarshalOptions, protoiface flags and impl.marshalOptions (so nested re-entries keep it); (3) raw lazy pass-through is taken only when determinism is off; (4) both deterministic map-key comparators order keys by the direct comparison of the key kind's own value.",
+		Explain:    "Decides structural necessary conditions of `deterministic marshaling is a function of content`: (1) every iteration over a Go map / reflect map / direct Message.Range / Map.Range in the binary marshal and ordering packages is commutative, sorted before use, single-entry, or control-dependent on determinism being off; (2) the Deterministic option survives every conversion between proto.MarshalOptions, protoiface flags and impl.marshalOptions (so nested re-entries keep it); (3) raw lazy pass-through is taken only when determinism is off; (4) both deterministic map-key comparators order keys by the direct comparison of the key kind's own value. Also: the options rebuilt for messages without a MessageInfo (impl.marshalOptions.Options / unmarshalOptions.Options) carry every option of the proto package from the flag of the same name (Deterministic reaches legacy and dynamic children).",
 		NotCovered: "the converse direction (identical deterministic bytes imply Equal) and cross-version stability; only iteration-order and option-propagation clauses are decided.",
 		Quick:      all("./proto", "./internal/impl", "./internal/order"),
 		Thorough:   allAndLegacy("./proto", "./internal/impl", "./internal/order"),
 		Run: func(c *Ctx) {
+			c.ruleOptionsForward("R-OPTIONS-FORWARD")
 			c.ruleEqualExtSymmetry("R-EQUAL-EXT-SYMMETRY")
 			c.ruleMergeClass("R-MERGE-CLASS", 60)
 			c.ruleOrder("R-ORDER", []string{"proto", "internal/impl", "internal/order", "internal/encoding/messageset"}, orderOpts{NondetGuard: nondetGuard, Floor: 6, Exempt: orderExemptCore, Filter: marshalPathFunc})
